@@ -27,7 +27,7 @@ RULE = ("case = (protein fragment of 12 residues with hydrogens or a water box f
         "trajectory, on every frame alone and on the permuted trajectory; oracle: all settings bit-identical, and "
         "f(t)[i] == f(t[i])[0] == f(t[perm])[perm^-1(i)] bit-for-bit for the C/Cython kernels, 4 ulp for the numpy-only descriptors; "
         "non-trivial = n_frames > threads for at least one setting (a thread handles >= 2 frames); distinct = different case JSON")
-QUICK = {"examples": 4, "shards": 8, "budget_s": 110}
+QUICK = {"examples": 4, "shards": 8, "budget_s": 170}
 THOROUGH = {"examples": 12, "shards": 8, "budget_s": 1700}
 ASSUMPTIONS = ["thread counts and OpenMP scheduling policy are chosen by the harness, the interleaving is not: a data race is only caught "
                "probabilistically; state carried across frames in per-thread scratch is deterministic under static scheduling",
